@@ -77,7 +77,10 @@ def c10step (_ : Unit) (op : String) (impl : String) : Unit × String :=
         -- floats given as bit patterns; impl prints sign of bytes.Compare of the shift-0 encodings
         | some x, some y =>
             let m := bytesCmp (encode (f2i x) 0) (encode (f2i y) 0)
-            (toString m, "ok")
+            -- specification: IEEE total order on bit patterns (sign-magnitude; -0 just below +0)
+            let key (b : I64) : Int := if b.msb then -((b &&& lowMask).toNat : Int) - 1 else (b.toNat : Int)
+            let want : Int := if key x < key y then -1 else if key x > key y then 1 else 0
+            (toString m, if impl == toString want then "ok" else s!"bad:float-order-embedding expected {want}")
         | _, _ => ("bad-op", "na")
     | ["member", lo, hi, v] => match parse64 lo, parse64 hi, parse64 v with
         | some l, some h, some x =>
